@@ -1,7 +1,10 @@
 //! # FFI-safe Arc.
 use crate::trait_group::c_void;
 use crate::trait_group::Opaquable;
+#[cfg(not(h33p_cglue_verif))]
 use std::sync::Arc;
+#[cfg(h33p_cglue_verif)]
+use loom::sync::Arc;
 
 unsafe impl<T: Sync + Send> Send for CArc<T> {}
 unsafe impl<T: Sync + Send> Sync for CArc<T> {}
